@@ -1,3 +1,4 @@
+import errno
 import grp
 import os
 import pwd
@@ -90,6 +91,9 @@ class RealFs(RealVolumeOf, Fs):
         os.mkdir(path, mode)
 
     def move(self, path, dest):
+        if os.path.ismount(path):
+            raise OSError(errno.EBUSY,
+                          "cannot trash a mount point", path)
         return fs.move(path, dest)
 
     def remove_file(self, path):
